@@ -23,7 +23,7 @@ ToSet(s) == {s[i] : i \in 1..Len(s)}
 ObjOrder == Obs[1].objs
 \* OrConstraint.apply passes its alternatives through list(set(...)): the member order of the result is not fixed; and
 \* whether two occurrences of one unhashable literal (hashed by id) are merged depends on object identity, which the
-\* terms do not carry: results of and / or conditions are compared as sets of union members
+\* terms do not carry: results of and / or conditions (and of the one_of behind `case []`) are compared as sets of union members
 MemberSet(t) == IF t.k = "union" THEN ToSet(t.ms) ELSE {t}
 SameUpToOrder(a, b) == a = b \/ MemberSet(a) = MemberSet(b)
 
@@ -45,8 +45,8 @@ JudgePol(o, pol, R) ==
        IN Chk(n1 = "ok", o.tid, IF n1 = "viol" THEN "viol:N1-" \o PolName(pol) ELSE n1)
     /\ Chk(RefNoWiden(o.v, o.c, R), o.tid, "viol:N2-" \o PolName(pol))
     /\ Chk(IF NoPrediction(o) THEN TRUE
-           ELSE IF CondHasKind(o.c, {"or", "and", "m_or"}) THEN SameUpToOrder(R, ImplNarrow(o.v, o.c, pol))
-           ELSE R = ImplNarrow(o.v, o.c, pol),
+           ELSE LET model == IF o.route = "visitor" THEN ImplNarrowVisitor(o.v, o.c, pol) ELSE ImplNarrow(o.v, o.c, pol)
+                IN IF CondHasKind(o.c, {"or", "and", "m_or", "m_seq"}) THEN SameUpToOrder(R, model) ELSE R = model,
            o.tid, "drift:narrow-" \o PolName(pol))
 
 JudgeNarrow(o) ==
